@@ -113,6 +113,9 @@ def _dispatch(case):
     out = []
     cr, comp, sub, ver, kind, plugins = case['creator'], case['comp'], case['sub'], case['ver'], case['kind'], case['plugins']
     imphook.install(serve_all=True, override_shipped=True)
+    if not plugins:
+        imphook.forget_modules()      # (see _src) nothing loaded beforehand: an import would show in the log
+        imphook.reset_logs()
     before = plugin_modules()
     sec = {'t': kind, 'comp': comp, 'sub': sub, 'ver': ver, 'payload': PAYLOAD.hex()}
     pel_creator = cr
@@ -159,6 +162,11 @@ def _src(case):
     out = []
     cr, ascii_, wc, plugins = case['creator'], case['ascii'], case['wc'], case['plugins']
     imphook.install(serve_all=True, override_shipped=True)
+    if not plugins:
+        # a module that an earlier case already loaded would be handed out again without an observable import: start from
+        # nothing loaded, so that "no parser module is imported" is decided by the import log
+        imphook.forget_modules()
+        imphook.reset_logs()
     words = [0x0A0B0C01 + i * 0x01010101 for i in range(8)]
     src = {'t': case.get('t', 'PS'), 'ascii': ascii_.ljust(32), 'words': words, 'wc': wc}
     r = decode.parse(pelgen.encode_pel(pelgen.pel_from_spec({'creator': cr, 'sections': [src, SENT]})), plugins=plugins)
@@ -194,6 +202,19 @@ def _osrc(case):
     imphook.install(serve_all=True, override_shipped=False)
     words = [0x0A0B0C01 + i * 0x01010101 for i in range(8)]
     src = {'t': 'PS', 'ascii': ascii_.ljust(32), 'words': words}
+    if case.get('plugins') is False:
+        # BMC reference codes with parser modules disabled: neither the shipped dispatcher nor a component parser is loaded
+        imphook.forget_modules()
+        imphook.reset_logs()
+        before = plugin_modules()
+        r = decode.parse(pelgen.encode_pel(pelgen.pel_from_spec({'creator': case.get('creator', 'O'), 'sections': [src, SENT]})), plugins=False)
+        LAST['nt'] = True
+        if r['kind'] != 'doc':
+            _bad(out, case, 'not-decoded', '%s %s' % (r['kind'], r.get('msg')))
+        elif imphook.IMPORTS or imphook.CALLS or plugin_modules() != before:
+            _bad(out, case, 'import-with-plugins-disabled', 'imports %s, sys.modules gained %s' % (
+                imphook.IMPORTS[:3], sorted(set(plugin_modules()) - set(before))))
+        return out
     r = decode.parse(pelgen.encode_pel(pelgen.pel_from_spec({'creator': case.get('creator', 'O'), 'sections': [src, SENT]})))
     if r['kind'] != 'doc':
         _bad(out, case, 'not-decoded', '%s %s' % (r['kind'], r.get('msg')))
@@ -447,6 +468,7 @@ def run_chunk(chunk):
         for ascii_ in ['BD8D1234', 'BD2A5678', 'BDE51000', 'BDe5ABCD', '11001234', '1100E510', 'BC8A0001', 'BCE50002', 'B7001234']:
             for cr in ('O', 'o'):
                 _do(res, {'k': 'osrc', 'ascii': ascii_, 'creator': cr}, step=3)
+            _do(res, {'k': 'osrc', 'ascii': ascii_, 'creator': 'O', 'plugins': False}, step=3)
     elif k == 'm2c00':
         hl = bytes(range(1, 47))
         il = bytes.fromhex('8ADF0F19010000DE' '00010002E0040000')
